@@ -33,7 +33,7 @@ impl C15 {
         let class = if just_below_pow16(x) {
             "just-below-pow16".to_string()
         } else {
-            format!("other-{:016x}", x.to_bits())
+            format!("other-exp16={}", (((x.to_bits() >> 52) & 0x7ff) as i64 - 1023).div_euclid(4))
         };
         if got != want {
             cx.count("encode_mismatch");
@@ -102,7 +102,7 @@ impl C15 {
                 let class = if just_below_pow16(got) {
                     "just-below-pow16".to_string()
                 } else {
-                    format!("other-{:016x}", b)
+                    format!("other-exp16={}", ((b >> 56) & 0x7f) as i64 - 64)
                 };
                 cx.count("reencode_mismatch");
                 cx.violation(
@@ -270,7 +270,7 @@ impl Prop for C15 {
                         GdsLibrary::from_bytes(&buf).map_err(|e| format!("{:?}", e))
                     });
                     let all_below = [u0, u1, mag, ang].iter().any(|x| just_below_pow16(*x));
-                    let class = if all_below { "just-below-pow16".to_string() } else { format!("other-{:016x}", u0.to_bits()) };
+                    let class = if all_below { "just-below-pow16".to_string() } else { format!("other-exp16={}", (((u0.to_bits() >> 52) & 0x7ff) as i64 - 1023).div_euclid(4)) };
                     match r {
                         Ok(Ok(l2)) => {
                             let st = match &l2.structs[0].elems[0] {
